@@ -66,10 +66,6 @@ func validateHAMTData(nd data.UnixFSData) error {
 		return ErrInvalidHashType
 	}
 
-	if !nd.FieldData().Exists() {
-		return ErrNoDataField
-	}
-
 	if !nd.FieldFanout().Exists() {
 		return ErrNoFanoutField
 	}
@@ -99,7 +95,12 @@ func bitField(nd data.UnixFSData) (bitfield.Bitfield, error) {
 	if err != nil {
 		return nil, err
 	}
-	bits := nd.FieldData().Must().Bytes()
+	var bits []byte
+	if nd.FieldData().Exists() {
+		// an absent Data field is an empty bitfield: go-unixfs/boxo omit the
+		// field when serialising a shard with no entries
+		bits = nd.FieldData().Must().Bytes()
+	}
 	if len(bits) > len(bf) {
 		// SetBytes panics on a bitfield that is longer than the width allows
 		return nil, fmt.Errorf("hamt bitfield (%d bytes) too long for width (%d)", len(bits), fanout)
